@@ -142,14 +142,18 @@ impl Vault {
         let max_versions = config.max_versions.max(1); // At least 1 version
         let attenuation = config.attenuation;
 
-        let ttl_tracker = GrantTTLTracker::load(&store).unwrap_or_default();
+        let ttl_tracker =
+            GrantTTLTracker::load_sealed(&store, |b| obfuscator.decrypt_metadata(b)).unwrap_or_default();
 
         let anomaly_monitor = config.anomaly_thresholds.as_ref().map_or_else(
             || AnomalyMonitor::new(AnomalyThresholds::default()),
             |t| AnomalyMonitor::load(&store, t.clone()),
         );
-        let delegation_manager =
-            DelegationManager::load(&store, config.max_delegation_depth.unwrap_or(3));
+        let delegation_manager = DelegationManager::load_sealed(
+            &store,
+            config.max_delegation_depth.unwrap_or(3),
+            |b| obfuscator.decrypt_metadata(b),
+        );
 
         let quota_manager = QuotaManager::load(&store);
         let policy_manager = PolicyManager::load(&store);
@@ -347,6 +351,18 @@ impl Vault {
         self.graph
             .delete_edge(edge_id)
             .map_err(|e| VaultError::GraphError(e.to_string()))
+    }
+
+    /// Persist the grant TTL table encrypted: it names secrets.
+    fn persist_ttl(&self) -> Result<()> {
+        self.ttl_tracker
+            .persist_sealed(&self.store, |b| self.obfuscator.encrypt_metadata(b))
+    }
+
+    /// Persist delegation records encrypted: they name secrets.
+    fn persist_delegations(&self) {
+        self.delegation_manager
+            .persist_sealed(&self.store, |b| self.obfuscator.encrypt_metadata(b));
     }
 
     fn vault_key(&self, secret_key: &str) -> String {
@@ -883,7 +899,7 @@ impl Vault {
 
         // Then register with TTL tracker and persist
         self.ttl_tracker.add(entity, key, ttl);
-        self.ttl_tracker.persist(&self.store).ok();
+        self.persist_ttl().ok();
 
         Ok(())
     }
@@ -909,7 +925,7 @@ impl Vault {
 
         // Remove from TTL tracker if present and persist
         if self.ttl_tracker.remove(entity, key) {
-            self.ttl_tracker.persist(&self.store).ok();
+            self.persist_ttl().ok();
         }
 
         // Log audit
@@ -945,7 +961,7 @@ impl Vault {
         }
 
         if revoked > 0 {
-            self.ttl_tracker.persist(&self.store).ok();
+            self.persist_ttl().ok();
         }
 
         revoked
@@ -1007,7 +1023,7 @@ impl Vault {
             if let Err(e) = self.graph.delete_node(node_id) {
                 self.emit_cleanup_error("delete: graph node cleanup", &e);
             }
-            if let Err(e) = self.ttl_tracker.persist(&self.store) {
+            if let Err(e) = self.persist_ttl() {
                 self.emit_cleanup_error("delete: TTL persist", &e);
             }
         }
@@ -1911,10 +1927,10 @@ impl Vault {
             for &secret in secrets {
                 self.ttl_tracker.add(child, secret, duration);
             }
-            self.ttl_tracker.persist(&self.store).ok();
+            self.persist_ttl().ok();
         }
 
-        self.delegation_manager.persist(&self.store);
+        self.persist_delegations();
 
         // Audit
         for &secret in secrets {
@@ -1952,8 +1968,8 @@ impl Vault {
             revoked_secrets.push(secret.clone());
         }
 
-        self.delegation_manager.persist(&self.store);
-        self.ttl_tracker.persist(&self.store).ok();
+        self.persist_delegations();
+        self.persist_ttl().ok();
 
         for secret in &revoked_secrets {
             self.log_operation(
@@ -1988,8 +2004,8 @@ impl Vault {
             }
         }
 
-        self.delegation_manager.persist(&self.store);
-        self.ttl_tracker.persist(&self.store).ok();
+        self.persist_delegations();
+        self.persist_ttl().ok();
         Ok(revoked)
     }
 
@@ -2156,7 +2172,7 @@ impl Vault {
         let edge_type = format!("{}{}", Self::ACCESS_EDGE, Permission::Read.edge_suffix());
         self.add_entity_graph_edge(requester, &secret_node, &edge_type)?;
         self.ttl_tracker.add(requester, key, duration);
-        self.ttl_tracker.persist(&self.store).ok();
+        self.persist_ttl().ok();
 
         // Audit with justification
         self.log_operation(
@@ -3083,7 +3099,8 @@ impl Vault {
         self.snapshot_cipher = Cipher::from_raw_key(new_master.snapshot_key());
         self.sync_manager
             .update_cipher(Cipher::from_raw_key(new_master.sync_key()));
-        self.ttl_tracker.persist(&self.store).ok();
+        self.persist_ttl().ok();
+        self.persist_delegations();
 
         let audit_log = AuditLog::new(&self.store, Some(*self.audit_key));
         audit_log.record(
